@@ -1,5 +1,17 @@
 /-
-  Lemmas/FloatErrSqrt.lean — the rounding-error layer for **`sqrt`** of Lean ≥ 4.33's logical floats.
+  Lemmas/FloatErrSqrt.lean — the rounding-error layer (Lemmas/FloatErr*.lean) for **`sqrt`** of Lean ≥ 4.33's logical
+  floats (`UnpackedFloat.sqrt`: integer square root `root = ⌊√M⌋` of the mantissa shifted to `M · 2^(2·te)`, an `Accuracy`
+  computed from the remainder `M − root²`, then `roundWithAccuracy`).
+
+  The exact root is irrational in general, so everything is stated IN SQUARES over ℚ:
+  * `sqrt_proxy`: the accuracy of `sqrtCore` is the accuracy of the rational proxy `root`, `root + ¼` or `root + ¾`
+    (same floor, same round / sticky information), so `roundWithAccuracy` is `rwa_shape` of that proxy;
+  * `sqrt_rne_bounds`: the nearest-even rounding `q` of the proxy on any grid `K` satisfies `(2qK − K)² ≤ 4M ≤ (2qK + K)²`,
+    i.e. it is within half a grid unit of the TRUE root;
+  * `sqTe_le_tgt`: `sqrtCore` computes the root with a full mantissa (never asks for bits to be added);
+  * **`sqrt_err_unpacked`** (every `Format`): `(r − h)² ≤ x ≤ (r + h)²`, `h` half an ulp — `sqrt` is correctly rounded;
+  * **`sqrt_half_ulp_float`**, **`sqrt_sq_err_float`** (binary64): `r²(1 − 2⁻⁵²) ≤ x ≤ r²(1 + 2⁻⁵³)²`, `r ≥ 0`; the result
+    is never subnormal.
 -/
 import RosuModel.Lemmas.FloatErrMul
 import RosuModel.Lemmas.FloatBitsLaws
@@ -319,5 +331,39 @@ theorem sqrt_sq_err_float (x : Float) (hx : x.isFinite = true) (h0 : Scalar.le (
       pow_le_pow_left₀ (by linarith) (by linarith) 2
     have : (r + (2 : ℚ) ^ (-53 : Int) * r) ^ 2 = r ^ 2 * (1 + (2 : ℚ) ^ (-53 : Int)) ^ 2 := by ring
     linarith
+
+/-! ### non-vacuity / sharpness (closed doubles, evaluated by the kernel) -/
+
+section Examples
+
+/-- the hypotheses of `sqrt_sq_err_float` hold on `x = 2`, and the instance. -/
+example : toRat (Scalar.sqrt (2 : Float) : Float) ^ 2 * (1 - (2 : ℚ) ^ (-52 : Int)) ≤ toRat (2 : Float) ∧
+    toRat (2 : Float) ≤ toRat (Scalar.sqrt (2 : Float) : Float) ^ 2 * (1 + (2 : ℚ) ^ (-53 : Int)) ^ 2 :=
+  (sqrt_sq_err_float 2 (by decide +kernel) (by decide +kernel) (by decide +kernel)).2
+
+/-- … computed: `sqrt 2 = 6369051672525773 · 2⁻⁵²` (`0x3FF6A09E667F3BCD`), `r² − 2 = 5545866846675497 · 2⁻¹⁰⁴ ≠ 0`
+(`r² = 2 (1 + 0.61… · 2⁻⁵³)`): the root is inexact and well inside the bound. -/
+example : (Scalar.sqrt (2 : Float) : Float) = Float.ofBits 0x3FF6A09E667F3BCD ∧
+    toRat (Float.ofBits 0x3FF6A09E667F3BCD) ^ 2 - toRat (2 : Float) =
+      5545866846675497 / 20282409603651670423947251286016 := by
+  have hs : (Float.ofBits 0x3FF6A09E667F3BCD).toModel.unpack = .finite .positive 6369051672525773 (-52) (by decide) := by
+    rw [FM.float_unpack_ofBits _ (by decide)]; rfl
+  have h2 : (2 : Float).toModel.unpack = .finite .positive 4503599627370496 (-51) (by decide) := by
+    have : (2 : Float) = Float.ofBits 0x4000000000000000 := by decide +kernel
+    rw [this, FM.float_unpack_ofBits _ (by decide)]; rfl
+  refine ⟨by decide +kernel, ?_⟩
+  rw [toRat_of_unpack hs, toRat_of_unpack h2]
+  norm_num [sgnQ]
+
+/-- exact roots are exact (`h` can be taken `0`): `sqrt 4 = 2`; `sqrt` of the smallest subnormal `2⁻¹⁰⁷⁴` is the normal
+`2⁻⁵³⁷` (the result of `sqrt` is never subnormal); `sqrt(−0) = −0`. -/
+example : (Scalar.sqrt (4 : Float) : Float) = 2 ∧
+    (Scalar.sqrt (Float.ofBits 1) : Float) = Float.ofBits 0x1E60000000000000 ∧
+    (Scalar.sqrt (Float.ofBits 0x8000000000000000) : Float).toBits = 0x8000000000000000 := by decide +kernel
+
+/-- the hypothesis `0 ≤ x` is needed: `sqrt(−1)` is a NaN (value `0` by convention, `0² ≠ −1`). -/
+example : (Scalar.sqrt (-1 : Float) : Float).isNaN = true ∧ Scalar.le (0 : Float) (-1) = false := by decide +kernel
+
+end Examples
 
 end Rosu.FErr
